@@ -392,6 +392,18 @@ def find_check_cache(context):
         context.build['find_dirs'].update(seen_dirs)
 
     if not regenerate:
+        # The results are the same, but the directories to watch may not be
+        # (e.g. a new, still-empty directory below a `**` pattern): keep the
+        # depfile current so that later changes inside them are noticed.
+        find_dirs = context.build['find_dirs']
+        if context.env.backend == 'make':
+            write_depfile(context.env, Path(depfile_name),
+                          make.multitarget_primary(regen_files.outputs),
+                          find_dirs, makeify=True)
+        elif context.env.backend == 'ninja':
+            write_depfile(context.env, Path(depfile_name), ninja.filepath,
+                          find_dirs)
+
         # We don't want to regenerate. To make sure the build backend is happy,
         # update the modification time of all the output files.
         for i in regen_files.outputs:
